@@ -1,7 +1,7 @@
 /-
   Asn1.Constraint — executable model of pyasn1/type/constraint.py (as it is after the /repo fixes
-  9506346 + 8bf629a `ConstraintsIntersection.isSuperTypeOf`, 44f81e4 `ContainedSubtypeConstraint._setValues`,
-  18cf487 `subtype()` wraps a non-intersection subtypeSpec), of the constraint-related parts of
+  e45f9fd + f8fea03 `ConstraintsIntersection.isSuperTypeOf`, 317983f `ContainedSubtypeConstraint._setValues`,
+  8df4c27 `subtype()` wraps a non-intersection subtypeSpec), of the constraint-related parts of
   type/base.py (`SimpleAsn1Type.__init__/clone/subtype`, `Asn1Type.isSameTypeWith/isSuperTypeOf`),
   of the subtype check in univ.py `setComponentByPosition` and of the `isInconsistent` gate in
   ber/encoder.py `SequenceEncoder` / `SequenceOfEncoder`.  DESIGN §5 C14.  Mathlib-free.
@@ -490,7 +490,7 @@ def baseIsSuperTypeOf (self other : Constr) : Bool :=
   !self.truthy || pyEq other self || decide (self ∈ valueMap other)
 
 mutual
-/-- `ConstraintsIntersection._isImposedBy(constraint, other)` (fixes 8bf629a, 0512f2c): equal hash and
+/-- `ConstraintsIntersection._isImposedBy(constraint, other)` (fixes f8fea03, a3e4c68): equal hash and
     `==` (the membership test of the value map: structural equality, the class counts), or `other`
     is an intersection and one of its operands imposes it.  Unions are not entered. -/
 def imposedBy (c : Constr) : Constr → Bool
@@ -503,7 +503,7 @@ def imposedByOps (c : Constr) : Ops → Bool
   | .entry _ _ _ rest => imposedByOps c rest
 end
 
-/-- the loop of `ConstraintsIntersection.isSuperTypeOf` (fixes 9506346, 8bf629a, 0512f2c): every truthy
+/-- the loop of `ConstraintsIntersection.isSuperTypeOf` (fixes e45f9fd, f8fea03, a3e4c68): every truthy
     operand is imposed by the other constraint -/
 def imposedAll : Ops → Constr → Bool
   | .nil, _ => true
@@ -523,7 +523,7 @@ def isSubTypeOf (self other : Constr) : Bool :=
   !self.truthy || pyEq other self || decide (other ∈ valueMap self)
 
 /-- `subtypeSpec + extra` as `subtype()` computes it: `ConstraintsIntersection.__add__` appends to
-    the operand tuple; any other subtypeSpec is first wrapped into an intersection (fix 18cf487) -/
+    the operand tuple; any other subtypeSpec is first wrapped into an intersection (fix 8df4c27) -/
 def derive (parent extra : Constr) : Constr :=
   match parent with
   | .mk .intersection ops => .mk .intersection (ops.append (.con extra .nil))
@@ -538,7 +538,7 @@ def deriveChain (parent : Constr) : List Constr → Constr
   | [] => parent
   | e :: es => deriveChain (derive parent e) es
 
-/-- `ConstructedAsn1Type._moveSizeSpec` (after fixes 9bc6b88, aaa101a, 4027db3): a legacy `sizeSpec` is added to the
+/-- `ConstructedAsn1Type._moveSizeSpec` (after fixes b99ccc0, 6dc686b, 63bd1d5): a legacy `sizeSpec` is added to the
     subtypeSpec unless the subtypeSpec already imposes it (cloning passes the moved one back in) -/
 def moveSizeSpec (subtypeSpec sizeSpec : Constr) : Constr :=
   if !sizeSpec.truthy then subtypeSpec
